@@ -641,6 +641,33 @@ where
     probe(out, Want::NoPanic, || format!("unshard {} num_measurements=0", inst.spec), || inst.vdaf.unshard(&(), [AggregateShare::from(OutputShare::from(vec![T::Field::from(<T::Field as FieldElementWithInteger>::Integer::try_from(0u128).ok().unwrap()); ol]))], 0));
 }
 
+/// protocol operations around valid reports, offered malformed, foreign or miscounted arguments
+/// (also part of the C02 run: a typed message or share that no codec of the instance would produce
+/// is one way "messages altered in transit" can look to the receiving aggregator)
+pub fn prio3_misuse(out: &mut Out, rng: &mut Sm, thorough: bool) {
+    type PS = ParallelSum<Field128, Mul>;
+    let shapes: &[(u8, u8)] = if thorough { &[(1, 1), (2, 1), (3, 2), (2, 3), (5, 1)] } else { &[(2, 1), (3, 2)] };
+    for &(na, np) in shapes {
+        let cnt128 = Inst::new(Count::<Field128>::new(), "count", 0, na, np, 1);
+        let hist = Inst::new(Histogram::<Field128, PS>::new(3, 1).unwrap(), "hist:3:1", 0, na, np, 3);
+        prio3_instance(out, rng, &hist, &cnt128, &2, &true, thorough);
+        prio3_instance(out, rng, &cnt128, &hist, &true, &1, thorough);
+        let sv = Inst::new(SumVec::<Field128, PS>::new(7, 2, 3).unwrap(), &format!("svec:2:3:{}:3", lw(7)), 0, na, np, 4);
+        let sum128 = Inst::new(Sum::<Field128>::new(300).unwrap(), &format!("sum:{}", bits_of(300)), lw(300), na, np, 2);
+        prio3_instance(out, rng, &sv, &sum128, &vec![7, 0], &300, thorough);
+        prio3_instance(out, rng, &sum128, &sv, &17, &vec![1, 2], thorough);
+        if thorough || na == 2 {
+            let mh = Inst::new(MultihotCountVec::<Field128, PS>::new(4, 2, 3).unwrap(), &format!("mhot:4:{}:{}:3", bits_of(2), lw(2)), 0, na, np, 5);
+            prio3_instance(out, rng, &mh, &cnt128, &vec![true, false, true, false], &false, thorough);
+            let l1 = Inst::new(L1BoundSum::<Field128, PS>::new(7, 3, 4).unwrap(), &format!("l1:3:3:{}:4", lw(7)), 0, na, np, 0xFFFF1003);
+            prio3_instance(out, rng, &l1, &sum128, &vec![3, 0, 4], &0, thorough);
+        }
+        let cnt64 = Inst::new(Count::<Field64>::new(), "count", 0, na, np, 1);
+        let sum64 = Inst::new(Sum::<Field64>::new(1).unwrap(), "sum:1", 1, na, np, 2);
+        prio3_instance(out, rng, &cnt64, &sum64, &false, &1, thorough);
+    }
+}
+
 fn prio3(out: &mut Out, rng: &mut Sm, thorough: bool) {
     type PS = ParallelSum<Field128, Mul>;
     // constructors
@@ -668,27 +695,7 @@ fn prio3(out: &mut Out, rng: &mut Sm, thorough: bool) {
         probe(out, Want::NoPanic, || format!("new_sum_vec 2 {} {} {}", b, a, c), || Prio3::new_sum_vec(2, b as u128, a, c).map(|v| (v.output_len(), v.verifier_len())));
         probe(out, Want::NoPanic, || format!("new_multihot_count_vec 2 {} {} {}", a, b, c), || Prio3::new_multihot_count_vec(2, a, b, c).map(|v| (v.output_len(), v.verifier_len())));
     }
-    // protocol operations around valid reports
-    let shapes: &[(u8, u8)] = if thorough { &[(1, 1), (2, 1), (3, 2), (2, 3), (5, 1)] } else { &[(2, 1), (3, 2)] };
-    for &(na, np) in shapes {
-        let cnt128 = Inst::new(Count::<Field128>::new(), "count", 0, na, np, 1);
-        let hist = Inst::new(Histogram::<Field128, PS>::new(3, 1).unwrap(), "hist:3:1", 0, na, np, 3);
-        prio3_instance(out, rng, &hist, &cnt128, &2, &true, thorough);
-        prio3_instance(out, rng, &cnt128, &hist, &true, &1, thorough);
-        let sv = Inst::new(SumVec::<Field128, PS>::new(7, 2, 3).unwrap(), &format!("svec:2:3:{}:3", lw(7)), 0, na, np, 4);
-        let sum128 = Inst::new(Sum::<Field128>::new(300).unwrap(), &format!("sum:{}", bits_of(300)), lw(300), na, np, 2);
-        prio3_instance(out, rng, &sv, &sum128, &vec![7, 0], &300, thorough);
-        prio3_instance(out, rng, &sum128, &sv, &17, &vec![1, 2], thorough);
-        if thorough || na == 2 {
-            let mh = Inst::new(MultihotCountVec::<Field128, PS>::new(4, 2, 3).unwrap(), &format!("mhot:4:{}:{}:3", bits_of(2), lw(2)), 0, na, np, 5);
-            prio3_instance(out, rng, &mh, &cnt128, &vec![true, false, true, false], &false, thorough);
-            let l1 = Inst::new(L1BoundSum::<Field128, PS>::new(7, 3, 4).unwrap(), &format!("l1:3:3:{}:4", lw(7)), 0, na, np, 0xFFFF1003);
-            prio3_instance(out, rng, &l1, &sum128, &vec![3, 0, 4], &0, thorough);
-        }
-        let cnt64 = Inst::new(Count::<Field64>::new(), "count", 0, na, np, 1);
-        let sum64 = Inst::new(Sum::<Field64>::new(1).unwrap(), "sum:1", 1, na, np, 2);
-        prio3_instance(out, rng, &cnt64, &sum64, &false, &1, thorough);
-    }
+    prio3_misuse(out, rng, thorough);
     // shard: measurements out of range, through the VDAF
     let h = Prio3::new_histogram(2, 4, 2).unwrap();
     for m in [4usize, 5, 1 << 40, usize::MAX] {
